@@ -253,6 +253,14 @@ class Exec:
                         b = self.prog.bodies[k]
                         break
             if b is None:
+                # `Type::<'_>::method::promoted[0]` vs `<impl at file:l:c>::method::promoted[0]`
+                m = re.search(r'([A-Za-z_]\w*)::(promoted\[\d+\]|\{constant#\d+\})$', txt)
+                if m:
+                    suffix = '::' + m.group(1) + '::' + m.group(2)
+                    cands = [k for k in self.prog.bodies if k.endswith(suffix)]
+                    if len(cands) == 1:
+                        b = self.prog.bodies[cands[0]]
+            if b is None:
                 raise Unsupported('constant body ' + txt)
             return self.run_body(b, [])
         if re.match(r'^-?\d+(\.\d+)?$', txt):
